@@ -136,15 +136,17 @@ StageDiffs(nx, ln, sg) ==
    \cup V(\A p \in A : (st.stage[p] # "DONE" /\ At(ln.stage, p) = "DONE") => At(ln.endfresh, p), "val.uend_fresh")
    \* the residual used for the decision was computed from the values the step holds at that moment
    \cup V(sg = "IT_CHECK" => \A i \in 1 .. Len(ln.orc) : ln.orc[i].fresh, "val.residual_fresh")
+   \* ... and equals the independently recomputed defect norm in the configured residual type (unscripted runs)
+   \cup V(sg = "IT_CHECK" => \A i \in 1 .. Len(ln.orc) : ln.orc[i].resval_ok, "val.residual_value")
    \* CheckConvergence outcome equals the stopping rule applied to its inputs
    \cup V(sg = "IT_CHECK" => \A i \in 1 .. Len(ln.orc) :
             LET p == ln.running[i] o == ln.orc[i] IN
             o.done201 = ( ( (st.iter[p] >= MAXITER) \/ (o.res /\ (st.iter[p] > 0 \/ st.lsweep[p] > 0)) \/ o.fd ) /\ ~ o.fc ),
         "stop.rule")
-   \* "after at least one sweep": finishing by residual alone requires a sweep on this attempt
+   \* "after at least one sweep": a step declared finished by residual alone has swept on this attempt
    \cup V(sg = "IT_CHECK" => \A i \in 1 .. Len(ln.orc) :
             LET p == ln.running[i] o == ln.orc[i] IN
-            (o.done201 /\ st.iter[p] < MAXITER /\ ~ o.fd) => st.swept[p],
+            (At(ln.stage, p) = "DONE" /\ st.iter[p] < MAXITER /\ ~ o.fd) => st.swept[p],
         "stop.after_sweep")
 
 -----------------------------------------------------------------------------
@@ -195,7 +197,7 @@ TraceRunStart ==
           /\ gram' = GramInit
           /\ last' = <<>>
     /\ l' = l + 1
-    /\ UNCHANGED <<carry, acc, rej, stats, hist, tid>>
+    /\ UNCHANGED <<carry, acc, rej, stats, hist, consec, tid>>
 
 \* one call of pfasst()
 TraceStage ==
@@ -229,7 +231,7 @@ TraceStage ==
           /\ gram' = g.state
           /\ last' = IF cerr = "none" THEN ln ELSE last
     /\ l' = l + 1
-    /\ UNCHANGED <<nact, time, dt, carry, acc, rej, nblk, hist, tid>>
+    /\ UNCHANGED <<nact, time, dt, carry, acc, rej, nblk, hist, consec, tid>>
 
 \* block end: restart_block called at the end of a block
 TraceBlockEnd ==
@@ -274,6 +276,7 @@ TraceBlockEnd ==
                 \cup V(\A i \in 1 .. Len(newacc) : newacc[i].chained, "ver.chain")
                 \cup V(\A i \in 1 .. Len(newacc) : newacc[i].endok, "ver.endpoint")
                 \cup V(\A i \in 1 .. Len(newacc) : newacc[i].niter = newacc[i].nit, "ver.niter")
+          /\ consec' = IF ra = 0 THEN consec + 1 ELSE 0
           /\ carry' = IF ra < nact THEN <<"ustart", Len(acc) + ra>> ELSE <<"uend", Len(acc) + nact>>
           /\ acc' = acc \o newacc
           /\ rej' = rej \o newrej
@@ -322,7 +325,7 @@ TraceEnd ==
                 \cup V(RetryBudget, "acc.retry_budget")
           /\ phase' = "validated"
     /\ l' = l + 1
-    /\ UNCHANGED <<nact, time, dt, st, carry, acc, rej, stats, nblk, hist, tid, gram, last>>
+    /\ UNCHANGED <<nact, time, dt, st, carry, acc, rej, stats, nblk, hist, consec, tid, gram, last>>
 
 \* a line that fits no action in the current phase (e.g. the run went on although the model says it is over)
 TraceStray ==
@@ -342,6 +345,7 @@ TraceNextRun ==
     /\ tid' = tid + 1 /\ l' = 1 /\ viol' = {} /\ gram' = GramInit /\ last' = <<>>
     /\ phase' = "init" /\ nact' = 0 /\ time' = [p \in Slots |-> 0] /\ dt' = [p \in Slots |-> DT0]
     /\ st' = InitSt /\ carry' = <<"u0">> /\ acc' = <<>> /\ rej' = <<>> /\ stats' = {} /\ nblk' = 0 /\ hist' = <<>>
+    /\ consec' = 0
 
 TraceNext == TraceRunStart \/ TraceStage \/ TraceBlockEnd \/ TraceEnd \/ TraceStray \/ TraceNextRun
 
